@@ -238,7 +238,7 @@ func genCDXDoc(t *rapid.T) cdxCase {
 func cdxHashes(m map[int32]string) string {
 	hs := []string{}
 	for a, v := range m {
-		if cdxAlgo(a) {
+		if cdxAlgo(a) && v != "" { // a hash without content is not expressible (the schema requires the value)
 			hs = append(hs, fmt.Sprintf("%d=%s", a, v))
 		}
 	}
@@ -269,27 +269,32 @@ func cdxProjFor(v15 bool) func(n *sbom.Node, wildcard bool) proj {
 		}
 		p["hashes"] = cdxHashes(n.Hashes)
 		p["purl"] = n.Identifiers[1]
-		if v, ok := n.Identifiers[3]; ok {
-			p["cpe"] = v
-		} else {
-			p["cpe"] = n.Identifiers[2]
+		v23, has23 := n.Identifiers[3]
+		v22, has22 := n.Identifiers[2]
+		switch {
+		case has23 && has22 && wildcard:
+			p["cpe"] = v23 + "\x01" + v22 // CycloneDX holds one CPE: which of the two survives is the serializer's choice
+		case has23:
+			p["cpe"] = v23
+		default:
+			p["cpe"] = v22
 		}
 		p["licenses"] = strings.Join(n.Licenses, "\x00")
-		ers := []string{}
+		// external references: URL, comment and hashes of every reference survive (compared as a set: references
+		// that render identically are one reference); the type survives exactly when the target version can
+		// express it — which expressible type an inexpressible one degrades to is the serializer's choice
+		all, native := []string{}, []string{}
 		for _, e := range n.ExternalReferences {
-			ty := "OTHER"
-			if _, ok := cdxExtRef14[e.Type]; ok {
-				ty = e.Type.String()
-			} else if _, ok := cdxExtRef15[e.Type]; ok {
-				if v15 || !wildcard {
-					ty = e.Type.String()
-				} else {
-					ty = "?" // 1.5-only type written at 1.4: the encoder may or may not degrade it to "other"
-				}
+			body := fmt.Sprintf("%s|%s|%s", e.Url, e.Comment, cdxHashes(e.Hashes))
+			all = append(all, body)
+			_, n14 := cdxExtRef14[e.Type]
+			_, n15 := cdxExtRef15[e.Type]
+			if n14 || (n15 && v15) {
+				native = append(native, e.Type.String()+"|"+body)
 			}
-			ers = append(ers, fmt.Sprintf("%s|%s|%s|%s", ty, e.Url, e.Comment, cdxHashes(e.Hashes)))
 		}
-		p["external_references"] = joinSorted(ers)
+		p["external_references"] = joinSorted(dedupe(all))
+		p["extref_native"] = joinSorted(dedupe(native))
 		return p
 	}
 }
@@ -297,27 +302,7 @@ func cdxProjFor(v15 bool) func(n *sbom.Node, wildcard bool) proj {
 // relaxExtRefs rewrites the types of got's references that want marked "?" so that both sides compare equal
 // whichever of the two admissible outcomes happened.
 func cdxCompare(want, got *sbom.Document, v15, wildcard bool) error {
-	pf := cdxProjFor(v15)
-	if !wildcard || v15 {
-		return compareDocsCDX(want, got, pf, wildcard)
-	}
-	// at 1.4 a 1.5-only reference type is acceptable both verbatim and as OTHER: blank the type on both sides
-	blank := func(n *sbom.Node, w bool) proj {
-		p := pf(n, w)
-		var ers []string
-		for _, e := range n.ExternalReferences {
-			ty := "OTHER"
-			if _, ok := cdxExtRef14[e.Type]; ok {
-				ty = e.Type.String()
-			} else if _, ok := cdxExtRef15[e.Type]; ok {
-				ty = "OTHER"
-			}
-			ers = append(ers, fmt.Sprintf("%s|%s|%s|%s", ty, e.Url, e.Comment, cdxHashes(e.Hashes)))
-		}
-		p["external_references"] = joinSorted(ers)
-		return p
-	}
-	return compareDocsCDX(want, got, blank, wildcard)
+	return compareDocsCDX(want, got, cdxProjFor(v15), wildcard)
 }
 
 func compareDocsCDX(want, got *sbom.Document, pf func(n *sbom.Node, wildcard bool) proj, wildcard bool) error {
@@ -346,6 +331,26 @@ func compareDocsCDX(want, got *sbom.Document, pf func(n *sbom.Node, wildcard boo
 			if k == "primary_purpose" && !wildcard && (w[k] == "UNKNOWN_PURPOSE" || g[k] == "UNKNOWN_PURPOSE") {
 				if (w[k] == "UNKNOWN_PURPOSE" || w[k] == "") != (g[k] == "UNKNOWN_PURPOSE" || g[k] == "") {
 					return fmt.Errorf("node %q attribute %s: got %q want %q", n.Id, k, g[k], w[k])
+				}
+				continue
+			}
+			if k == "cpe" && strings.Contains(w[k], "\x01") {
+				if parts := strings.SplitN(w[k], "\x01", 2); g[k] != parts[0] && g[k] != parts[1] {
+					return fmt.Errorf("node %q: CPE came back as %q, want one of %q", n.Id, g[k], parts)
+				}
+				continue
+			}
+			if k == "extref_native" {
+				// every natively typed reference comes back with its type (the other side may hold more typed
+				// entries: degraded ones)
+				have := map[string]bool{}
+				for _, e := range strings.Split(g[k], "\x00") {
+					have[e] = true
+				}
+				for _, e := range strings.Split(w[k], "\x00") {
+					if e != "" && !have[e] {
+						return fmt.Errorf("node %q: external reference %q did not come back with its type (got %q)", n.Id, e, g[k])
+					}
 				}
 				continue
 			}
@@ -387,7 +392,8 @@ func cdxRoundTripCheck(c cdxCase) error {
 	if err := cdxCompare(c.Doc, d2, v15, true); err != nil {
 		return fmt.Errorf("CycloneDX %s write-then-read (depth %d, edge layout %s): %v\n doc: %s\n out: %s", c.Format.Version(), c.Depth, c.Layout, err, hx.RefKeyOrdered(c.Doc, ""), trunc(string(out), 2500))
 	}
-	if d2.Metadata.GetId() != c.Doc.Metadata.Id || d2.Metadata.GetVersion() != c.Doc.Metadata.Version {
+	// (a document without serial number may be given one by the writer)
+	if (c.Doc.Metadata.Id != "" && d2.Metadata.GetId() != c.Doc.Metadata.Id) || d2.Metadata.GetVersion() != c.Doc.Metadata.Version {
 		return fmt.Errorf("serial number / version not preserved: got (%q,%q) want (%q,%q)", d2.Metadata.GetId(), d2.Metadata.GetVersion(), c.Doc.Metadata.Id, c.Doc.Metadata.Version)
 	}
 	if v15 && lifecycleKey(d2.Metadata.DocumentTypes) != lifecycleKey(c.Doc.Metadata.DocumentTypes) {
